@@ -129,7 +129,7 @@ class Report:
         vdir = os.path.join(VERIF, "evidence", "violations", self.prop)
         lines = []
         for f in matched:
-            lines.append(f"KNOWN-FINDING: property={self.prop} {f.key} at {f.loc}: {open_keys[f.key].get('what', f.message)}")
+            lines.append(f"KNOWN-FINDING: property={self.prop} {f.key} at {f.loc}: {open_keys[f.key].get('what', f.message)[:220]}")
         for f in new:
             os.makedirs(vdir, exist_ok=True)
             p = os.path.join(vdir, hashlib.sha256(f.key.encode()).hexdigest()[:16] + ".json")
